@@ -283,6 +283,23 @@ func (fv *FV) havoc(st *State, ms *modSet) {
 				continue
 			}
 			if len(ra.Steps) > 0 {
+				if !ms.objs[ra.Root] && !rootAlsoAliased(st, ms, o, ra.Root, fv) {
+					// only the aliased location changes: the rest of the root value is kept
+					cur := fv.readPath(st, ra, true)
+					nv := fv.fresh(o.Name(), cur.Sort)
+					if !ms.direct[o] {
+						switch cur.Sort.Kind {
+						case KMap:
+							st.assume(tEq(mpNil(nv), mpNil(cur)))
+						case KPtr:
+							st.assume(tEq(tEq(nv, ptrNil(cur.Sort)), tEq(cur, ptrNil(cur.Sort))))
+						}
+					}
+					fv.quietUpdate = true
+					fv.writePath(st, ra, nv, token.NoPos)
+					fv.quietUpdate = false
+					continue
+				}
 				aliasPaths = append(aliasPaths, ra)
 			}
 			root = ra.Root
@@ -313,6 +330,22 @@ func (fv *FV) havoc(st *State, ms *modSet) {
 	for _, g := range sortedKeys(ms.ghosts) {
 		st.ghost[g] = fv.fresh(g, fv.reg.ghosts[g].Sort)
 	}
+}
+
+// rootAlsoAliased reports whether another modified variable aliases a location under the same root
+// (then the whole root is havocked instead of one location).
+func rootAlsoAliased(st *State, ms *modSet, self types.Object, root types.Object, fv *FV) bool {
+	for o := range ms.objs {
+		if o == self {
+			continue
+		}
+		if st.alias[o] != nil {
+			if ra := fv.resolveAlias(st, &Path{Root: o}); ra.Ghost == "" && ra.Root == root {
+				return true
+			}
+		}
+	}
+	return false
 }
 
 func (fv *FV) loopSpec(s ast.Stmt) *LoopSpec {
